@@ -4,7 +4,7 @@ from harness.props import common
 
 TOKEN_SAMPLES = [("x", "identifier"), ("abc_1", "identifier"), ("if", "keyword"), ("return", "keyword"), ("TRUE", "boolean"), ("FALSE", "boolean"),
                  ("12", "int"), ("0", "int"), ("0x1F", "int"), ("0b101", "int"), ("1_000", "int"), ("1.5", "decimal"), ("10.", "decimal"),
-                 ("'str'", "string"), ('"dq"', "string"), ("'a\nb'", "string"), ("//pat//", "pattern"), ("//a\nb//", "pattern"),
+                 ("'str'", "string"), ('"dq"', "string"), ("'a\nb'", "string"), ('"a\nb"', "string"), ('"two\n\nlines more"', "string"), ("//pat//", "pattern"), ("//a\nb//", "pattern"),
                  ("+", "operator"), ("-", "operator"), ("*", "operator"), ("/", "operator"), ("%", "operator"), ("==", "operator"), ("<", "operator"),
                  ("<=", "operator"), (">", "operator"), ("!=", "operator"), ("<>", "operator"), ("=", "operator"), ("+=", "operator"), ("->", "operator"),
                  ("!>", "operator"), ("(", "interpunction"), (")", "interpunction"), ("[", "interpunction"), ("]", "interpunction"), (",", "interpunction"),
@@ -12,6 +12,12 @@ TOKEN_SAMPLES = [("x", "identifier"), ("abc_1", "identifier"), ("if", "keyword")
                  ("=>", "interpunction"), ("<*", "interpunction"), ("*>", "interpunction"), ("...", "interpunction")]
 FOLLOWERS = [" ", "\n", "\r\n", "\t", " # c\n", "#c\n", "(", ")", "[", ",", ";", "+", "-", "<", "=", "", "\n\n", " \n", "'", '"', "x", "1"]
 PREFIXES = ["", "\n", "a\n", "# c\n\n", "1;\n\n  ", "'s\nt'\n", "\r\n", " ", "a b\nc\n"]
+
+
+def quote(v, rng):
+    """a string literal in either quote style (the text may span lines)"""
+    q = rng.choice(["'", '"']) if "'" not in v and '"' not in v and "\\" not in v else "'"
+    return q + v + q
 
 
 def render_lines(tokens, rng):
@@ -82,7 +88,7 @@ def run(ctx):
     ctx.count("token_cases", len(reqs))
     # ---------------- planted faults
     fillers = ["def a1 = 1", "def b1 = [1, 2]", "3 + 2", "'text'", "def f1(x) x + 1", "if 1 == 1 then 'y' else 'n'", "for q1 in [1, 2] do q1 end",
-               "def m1 = <<<'k' => 1>>>", "[z * 2 for z in [1, 2]]", "do 1; 2 end", "<<1, 2>>", "fn(x) x", "def h2 = 0x1F", "0b11 + 0x0a", "1_000 + 2.5", "def s2 = 'two' + \"x\""]
+               "def m1 = <<<'k' => 1>>>", "[z * 2 for z in [1, 2]]", "do 1; 2 end", "<<1, 2>>", "fn(x) x", "def h2 = 0x1F", "0b11 + 0x0a", "def s3 = 'line one\nline two'", "'doc\ncomment\n\nmore' def d3(x) x", "1_000 + 2.5", "def s2 = 'two' + \"x\""]
     faults = [
         (["undefined_name"], 0, 'rt'), (["1", "/", "0"], 1, 'rt'), (["error", "'boom'"], 0, 'rt'), (["not", "5"], 0, 'rt'),
         (["[", "1", "]", "[", "7", "]"], 3, 'rt'), (["zz", "=", "1"], 0, 'rt'), (["if", "3", "then", "1"], 0, 'rt'),
@@ -103,13 +109,13 @@ def run(ctx):
         ftoks, anchor, kind = rng.choice(faults)
         tokens = []
         for st in before:
-            toks = [v if t != "string" else "'" + v + "'" for v, t in [(x.value, x.type) for x in Lexer(st, "x").scan().tokens]]
+            toks = [v if t != "string" else quote(v, rng) for v, t in [(x.value, x.type) for x in Lexer(st, "x").scan().tokens]]
             tokens += toks + [";"]
         start = len(tokens)
         tokens += ftoks
         if kind not in ('syn-eof', 'syn-last'):
             for st in after:
-                tokens += [";"] + [v if t != "string" else "'" + v + "'" for v, t in [(x.value, x.type) for x in Lexer(st, "x").scan().tokens]]
+                tokens += [";"] + [v if t != "string" else quote(v, rng) for v, t in [(x.value, x.type) for x in Lexer(st, "x").scan().tokens]]
         text, lines = render_lines(tokens, rng)
         want = lines[start + anchor] if anchor is not None else None
         call_line = lines[start + 10] if ftoks[:2] == ["def", "g1"] else None
